@@ -11,6 +11,10 @@ one diagnostic layer per set, emitted as ODX and loaded by the real loader.  Per
     alphabet (every byte of a coded constant / NRC list of the layer, plus 00 and FF) and for the own encodings of
     every request and response over small value alphabets;
   * DiagLayer.decode_response(P, R) for every own request encoding R and every response encoding P made for R;
+  * DiagLayer.decode_response(P, Q) for one response P per (service, response object) and ALL byte strings Q (length <= 2..4
+    depending on tier and layer size) as the request: only services reachable through Q from its first byte may be reported;
+  * the values reported for every own request / response are fed back to the coding object's encoder and must give the
+    same bytes (multi-byte MATCHING-REQUEST-PARAMs included);
   * DiagLayer.service_groups[sid] for all 256 sids;
   * call sequences: ALL sequences of 3 calls over a per-layer op alphabet (per service decode(request), decode(response),
     decode_response(response, request)), each on its own freshly loaded layer object; every result must equal the
@@ -96,6 +100,8 @@ RESPONSES.update({
     "pr6Fg": {"kind": "POS-RESPONSE", "params": [cc("sid", 0x6F), ccn("tail", 0x03, 8, 2), val("y", "u8", 1)]},
     "pr6Fe": {"kind": "POS-RESPONSE", "params": [cc("sid", 0x6F), mrp("echo", 1, 1)]},
 })
+RESPONSES["prZ"] = {"kind": "POS-RESPONSE", "params": []}  # a response without any parameter (legal: an acknowledgement without payload)
+GNR_EMPTY = ("gnrZ", {"kind": "GLOBAL-NEG-RESPONSE", "params": []})  # GNR configuration 3: one GNR without any parameter
 GNRS: List[Tuple[str, Dict[str, Any]]] = [
     ("gnr1", {"kind": "GLOBAL-NEG-RESPONSE", "params": [cc("sid", 0x7F), mrp("rsid", 0, 1)] + nrc([0x31, 0x11])}),
     ("gnr2", {"kind": "GLOBAL-NEG-RESPONSE", "params": [cc("sid", 0x7F), val("rsid", "u8")] + nrc([0x12])}),
@@ -146,6 +152,14 @@ SHAPES.update({
     "S2F00": ([cc("sid", 0x2F), cc("sub", 0x00)], "pr6Fe", "nrB"),                                                    # 2F 00
     "S2Fb": ([cc("sid", 0x2F), val("x", "u8")], "pr6Fe", "nrA"),                                                      # 2F xx
 })
+# fifth alphabet: coding objects WITHOUT any parameter (an empty positive response, an empty request; GNR configuration 3
+# is an empty global negative response)
+SHAPES.update({
+    "Z10": ([cc("sid", 0x10)], "prZ", "nrA"),
+    "Zrq": ([], "pr50", None),
+})
+EMPTY_NAMES = ["Z10", "Zrq"]
+EMPTY_ALPHABET = EMPTY_NAMES + ["S10b", "S1001"]
 GAP_NAMES = ["G2F", "G2Fn"]
 GAP_ALPHABET = GAP_NAMES + ["S2F00", "S2Fb"]
 VALUES = {"u8": [0x00, 0x01, 0x5A, 0xFF], "u16": [0x0000, 0x0102, 0xF190, 0xA55A], "u4": [0x0, 0x1, 0xA, 0xF]}
@@ -165,7 +179,7 @@ def layer_spec(name: str, shapes: List[str], ngnr: int) -> Dict[str, Any]:
         svcs.append({"name": sh, "request": "rq_" + sh, "pos": [pos] if pos else [], "neg": [neg] if neg else []})
     for r in used:
         msgs.append({"kind": RESPONSES[r]["kind"], "name": r, "params": RESPONSES[r]["params"]})
-    for gname, g in GNRS[:ngnr]:
+    for gname, g in ([GNR_EMPTY] if ngnr == 3 else GNRS[:ngnr]):
         msgs.append({"kind": g["kind"], "name": gname, "params": g["params"]})
     return {"type": "BASE-VARIANT", "name": name, "dops": DOPS, "msgs": msgs, "svcs": svcs}
 
@@ -173,8 +187,9 @@ def layer_spec(name: str, shapes: List[str], ngnr: int) -> Dict[str, Any]:
 # ---------------------------------------------------------------------------------------------
 # observation of the real code
 # ---------------------------------------------------------------------------------------------
-def observe(fn: Any, *args: bytes) -> Tuple[str, Any]:
-    """-> ("ok", [(service, coding object, param_dict)]) | ("DecodeError", text) | ("exc:<Type>", text)"""
+def observe(fn: Any, *args: bytes, keep: Optional[List[Any]] = None) -> Tuple[str, Any]:
+    """-> ("ok", [(service, coding object, param_dict)]) | ("DecodeError", text) | ("exc:<Type>", text);
+    keep: list that receives the Message objects"""
     from odxtools.exceptions import DecodeError
     try:
         res = fn(*args)
@@ -185,7 +200,46 @@ def observe(fn: Any, *args: bytes) -> Tuple[str, Any]:
     out = []
     for m in res:
         out.append((m.service.short_name, getattr(m.coding_object, "short_name", None), m.param_dict))
+    if keep is not None:
+        keep.extend(res)
     return "ok", out
+
+
+def via_check(ref: refdispatch.RefLayer, P: bytes, Q: bytes, obs: Tuple[str, Any]) -> List[Tuple[str, str]]:
+    """decode_response(P, Q): a service may only be reported if one of its coding objects (or a global negative
+    response) carries its constant prefix on the request string Q from the first byte"""
+    out: List[Tuple[str, str]] = []
+    if obs[0] != "ok":
+        return out
+    for sname, cname, _ in obs[1]:
+        if sname not in ref.own:
+            continue
+        prefixes = [ref.plan_for(m, ref.rp[sname]).prefix for m in ref.own[sname] + ref.gnrs]
+        if not any(Q.startswith(pfx) for pfx in prefixes):
+            out.append(("C06/decode_response/service-not-reachable-through-the-request",
+                        f"decode_response({P.hex()}, request {Q.hex()}) reports ({sname}, {cname}) although no coding object of {sname} "
+                        f"has its constant prefix ({sorted({x.hex() for x in prefixes})}) at the start of the request; "
+                        f"services of the layer: {[x['name'] for x in ref.svcs]}"))
+            break
+    return out
+
+
+def reencode_diff(ref: refdispatch.RefLayer, messages: List[Any], svc: str, obj: str, M: bytes, R: Optional[bytes]) -> Optional[str]:
+    """'original values': the values reported for (svc, obj) are those the message was made from, i.e. the coding object
+    encodes them to M again (NRC-CONST values cannot be passed to the encoder and are left out)."""
+    nrc_names = {p["name"] for p in ref.msgs[obj]["params"] if p["t"] == "NRC-CONST"}
+    for m in messages:
+        if m.service.short_name != svc or getattr(m.coding_object, "short_name", None) != obj:
+            continue
+        values = {k: v for k, v in dict(m.param_dict).items() if k not in nrc_names}
+        try:
+            again = m.coding_object.encode(**values) if R is None else m.coding_object.encode(coded_request=R, **values)
+        except Exception as ex:  # noqa
+            return f"reported values {values} are refused by {obj}.encode(): {type(ex).__name__}: {str(ex)[:120]}"
+        if bytes(again) != M:
+            return f"reported values {values} encode to {bytes(again).hex()} instead of {M.hex()}"
+        return None
+    return None
 
 
 def show_obs(obs: Tuple[str, Any]) -> str:
@@ -382,8 +436,17 @@ def case_of(shapes: List[str], ngnr: int, op: str, M: bytes, R: Optional[bytes] 
     return c
 
 
+def request_string_length(nservices: int, ngnr: int, quick: bool) -> int:
+    """bound on the length of the arbitrary request strings of decode_response for a layer"""
+    if quick:
+        return 3 if (nservices <= 2 and ngnr == 0) else 2
+    if nservices <= 2:
+        return 4 if ngnr == 0 else 3
+    return 2
+
+
 def check_layer(layer: Any, ref: refdispatch.RefLayer, shapes: List[str], ngnr: int, maxlen: int, part: Part,
-                selftest: bool = False) -> None:
+                selftest: bool = False, qlen: int = 0) -> None:
     part.count("layers")
     # 0. the reference agrees with itself: every own encoding is a MATCH of its object with the original values
     rqs, rsps = own_messages(ref)
@@ -451,16 +514,25 @@ def check_layer(layer: Any, ref: refdispatch.RefLayer, shapes: List[str], ngnr: 
     if n_dead:
         part.add("status", MUSTNOT)
         part.add("classes", "NOMATCH:prefix")
-    # own encodings are attributed with the original values (MUST unless the service itself is ambiguous)
+    # own encodings are attributed with the original values (MUST unless the service itself is ambiguous): the reported
+    # values must be accepted by the coding object's encoder and give the same bytes again
     for svc, c, values, R in rqs:
         e = ref.expect(R)[svc]
         part.count("own_requests")
         if e["status"] == MUST and c in e["required"]:
             part.count("own_requests_must")
+            kept: List[Any] = []
+            observe(decode, R, keep=kept)
+            part.count("evaluations")
+            bad = reencode_diff(ref, kept, svc, c, R, None)
+            if bad:
+                report(part, "C06/own-request/reported-values-do-not-re-encode", dict(case_of(shapes, ngnr, "decode", R, None, svc), object=c),
+                       f"decode({R.hex()}) ({svc}, {c}): {bad}")
     for svc, c, values, P, R in rsps:
         part.count("own_responses")
         # 4. decode_response(P, R)
-        obs = observe(layer.decode_response, P, R)
+        kept = []
+        obs = observe(layer.decode_response, P, R, keep=kept)
         part.count("evaluations")
         part.count("decode_response_calls")
         e = ref.expect(P)[svc]
@@ -468,6 +540,38 @@ def check_layer(layer: Any, ref: refdispatch.RefLayer, shapes: List[str], ngnr: 
             part.count("own_responses_must")
         for key, detail in judge(ref, P, obs, "decode_response", only=svc, via=R, solo=solo_fn(ngnr, "decode_response", P, R)):
             report(part, key, case_of(shapes, ngnr, "decode_response", P, R, svc), detail + f" [request {R.hex()} of {svc}]")
+        if e["status"] == MUST and c in e["required"]:
+            bad = reencode_diff(ref, kept, svc, c, P, R)
+            part.count("reencoded_responses")
+            if bad:
+                report(part, "C06/own-response/reported-values-do-not-re-encode", dict(case_of(shapes, ngnr, "decode_response", P, R, svc), object=c),
+                       f"decode_response({P.hex()}, {R.hex()}) ({svc}, {c}): {bad}")
+    # 5. decode_response(P, Q) for ALL request byte strings Q up to qlen (most of them no request of any service): a
+    #    service may only be reported if one of its coding objects carries its constant prefix on Q from the first byte
+    if qlen:
+        canon: List[bytes] = []
+        canon_seen: List[Tuple[str, str, bytes]] = []
+        for svc, c, values, P, R in rsps:
+            if (svc, c) not in {(a, b) for a, b, _ in canon_seen}:
+                canon_seen.append((svc, c, P))
+                if P not in canon:
+                    canon.append(P)
+        dresp = layer.decode_response
+        n_q = 0
+        for Q in (bytes(t) for n in range(0, qlen + 1) for t in itertools.product(alpha, repeat=n)):
+            for P in canon:
+                obs = observe(dresp, P, Q)
+                n_q += 1
+                if obs[0] == "DecodeError":
+                    continue
+                for key, detail in judge(ref, P, obs, "decode_response", only="-"):
+                    report(part, key, case_of(shapes, ngnr, "decode_response", P, Q, "-"), detail + f" [request string {Q.hex()}]")
+                if obs[0] == "ok":
+                    part.count("foreign_request_reports")
+                    for key, detail in via_check(ref, P, Q, obs):
+                        report(part, key, case_of(shapes, ngnr, "decode_response", P, Q, "-"), detail)
+        part.count("evaluations", n_q)
+        part.count("decode_response_arbitrary_request_calls", n_q)
 
 
 # ---------------------------------------------------------------------------------------------
@@ -799,6 +903,18 @@ def gap_sets(maxsize: int) -> List[Tuple[str, ...]]:
     return out
 
 
+def empty_confs(maxsize: int) -> List[Tuple[Tuple[str, ...], int]]:
+    """all ordered sets over the fifth alphabet: those with an empty request / response with 0..2 GNRs, all of them with the
+    empty GNR (configuration 3)"""
+    out: List[Tuple[Tuple[str, ...], int]] = []
+    for n in range(1, maxsize + 1):
+        for t in itertools.permutations(EMPTY_ALPHABET, n):
+            if set(t) & set(EMPTY_NAMES):
+                out.extend((t, g) for g in (0, 1, 2))
+            out.append((t, 3))
+    return out
+
+
 def build(confs: List[Tuple[Tuple[str, ...], int]]) -> Tuple[Any, List[Dict[str, Any]]]:
     specs = [layer_spec(f"L{i}", list(shapes), ngnr) for i, (shapes, ngnr) in enumerate(confs)]
     db = emit.load_db({"containers": [{"name": "C", "layers": specs}]})
@@ -817,7 +933,8 @@ def unit_fn(unit: Tuple[int, List[Tuple[Tuple[str, ...], int]], bool, bool]) -> 
             layer = db.diag_layers[spec["name"]]
             ref = refdispatch.RefLayer(spec)
             # (the shortcuts of the reference are compared with its plain walk on the first layer of the self-test units)
-            check_layer(layer, ref, list(shapes), ngnr, maxlen, part, selftest=(selftest and i == 0))
+            check_layer(layer, ref, list(shapes), ngnr, maxlen, part, selftest=(selftest and i == 0),
+                        qlen=request_string_length(len(shapes), ngnr, quick))
             if selftest and i == 0:
                 part.count("reference_selftest_layers")
             mode = seq_mode(len(shapes), ngnr, quick, tuple(shapes))
@@ -862,7 +979,7 @@ def run(ctx: Ctx) -> None:
     maxset = 2 if ctx.quick else 3
     maxlen = 3 if ctx.quick else 4
     sets = service_sets(maxset) + wide_sets(maxset) + pc_sets(maxset) + gap_sets(maxset)
-    confs = [(s, g) for s in sets for g in (0, 1, 2)]
+    confs = [(s, g) for s in sets for g in (0, 1, 2)] + empty_confs(maxset)
     # big layers first, chunks sized by expected work (alphabet^maxlen grows with the number of services)
     confs.sort(key=lambda c: (-len(c[0]), c[1], c[0]))
     units: List[Tuple[int, List[Tuple[Tuple[str, ...], int]], bool, bool]] = []
@@ -880,6 +997,8 @@ def run(ctx: Ctx) -> None:
                                      "what": "siblings with the same SID told apart by a PHYS-CONST identifier, echoed by the responses"},
                   "fourth_alphabet": {"shapes": GAP_ALPHABET, "sets": f"all ordered sets of 1..{maxset} containing one of {GAP_NAMES}",
                                       "what": "a variable byte / nibble between two constants, listed after them (prefix ends at the gap)"},
+                  "fifth_alphabet": {"shapes": EMPTY_ALPHABET, "what": "a positive response / a request without any parameter; GNR configuration 3 = "
+                                     "a global negative response without any parameter (with every ordered set of this alphabet)"},
                   "call_sequences": "all sequences of 3 calls over the op alphabet of a layer (per service: decode(request), decode(response), "
                                     "decode_response(response, request)), each sequence on its own freshly loaded layer object; "
                                     + ("layers with <= 2 services and no GNR (2 ops per service for 2 services)" if ctx.quick else
@@ -901,6 +1020,9 @@ def run(ctx: Ctx) -> None:
         "call sequences: results are compared exactly (order, multiplicity, values) with the first call on a fresh layer object; "
         "for errors only the kind is compared",
         "edit + refresh: the refreshed layer is compared exactly with a database freshly loaded from the edited description, and judged by the reference",
+        "decode_response with a request string that is no request: a service may be reported iff one of its coding objects (or a GNR) has its "
+        "constant prefix at the start of the request string (that responses' prefixes count too is DON'T-CARE); errors are always allowed",
+        "original values: the reported param_dict (without NRC-CONST values) must be accepted by the coding object's encoder and give the message again",
         "descriptions: whole-byte A_UINT32 constants/values, IDENTICAL compu methods; a request without any parameter is not in the alphabet",
     ]
     rconfs = refresh_confs(ctx.quick)
@@ -914,8 +1036,8 @@ def run(ctx: Ctx) -> None:
     ctx.counts["traces_validated_against_impl"] = ctx.counts.get("decode_calls", 0) + ctx.counts.get("decode_response_calls", 0)
     ctx.counts["states"] = ctx.counts.get("layers", 0)
     ctx.counts["transitions"] = ctx.counts.get("evaluations", 0)
-    ctx.guard("every service shape used", ctx.sets.get("shapes", set()) == set(SHAPE_NAMES) | set(WIDE_NAMES) | set(PC_NAMES) | set(GAP_ALPHABET))
-    ctx.guard("all three GNR configurations used", ctx.sets.get("gnr_configs", set()) == {0, 1, 2})
+    ctx.guard("every service shape used", ctx.sets.get("shapes", set()) == set(SHAPE_NAMES) | set(WIDE_NAMES) | set(PC_NAMES) | set(GAP_ALPHABET) | set(EMPTY_NAMES))
+    ctx.guard("all four GNR configurations used", ctx.sets.get("gnr_configs", set()) == {0, 1, 2, 3})
     ctx.guard("decode both reported and refused messages", ctx.counts.get("decode_reports", 0) > 100 and ctx.counts.get("decode_errors", 0) > 100)
     ctx.guard("MUST, MAY and MUST-NOT services all seen", ctx.sets.get("status", set()) == {MUST, MAY, MUSTNOT})
     ctx.guard("MATCH, MAYBE (trailing, constant, echo) and NOMATCH (prefix, short, nrc) objects all seen",
@@ -926,6 +1048,9 @@ def run(ctx: Ctx) -> None:
               ctx.counts.get("call_sequences", 0) > 1000 and ctx.counts.get("sequence_layers_with_shared_messages", 0) > 10)
     ctx.guard("edit + refresh explored on every layer kind with every edit",
               ctx.sets.get("refresh_kinds", set()) == set(KINDS) and ctx.sets.get("refresh_edits", set()) == set(EDITS))
+    ctx.guard("decode_response with arbitrary request strings: > 10000 calls, > 100 of them reported something",
+              ctx.counts.get("decode_response_arbitrary_request_calls", 0) > 10000 and ctx.counts.get("foreign_request_reports", 0) > 100)
+    ctx.guard("own responses re-encoded from their reported values > 100", ctx.counts.get("reencoded_responses", 0) > 100)
     ctx.guard("own requests demanded > 100", ctx.counts.get("own_requests_must", 0) > 100)
 
 
@@ -960,10 +1085,23 @@ def replay(case: Any) -> List[Tuple[str, str]]:
         if case["op"] == "groups":
             bad = groups_diff(layer, ref)
             return [("C06/service_groups/differs", bad)] if bad else []
+        kept: List[Any] = []
         if case["op"] == "decode":
-            return judge(ref, M, observe(layer.decode, M), "decode", solo=solo_fn(ngnr, "decode", M))
+            out = judge(ref, M, observe(layer.decode, M, keep=kept), "decode", solo=solo_fn(ngnr, "decode", M))
+            if case.get("object"):
+                bad = reencode_diff(ref, kept, case["service"], case["object"], M, None)
+                if bad:
+                    out.append(("C06/own-request/reported-values-do-not-re-encode", bad))
+            return out
         if case["op"] == "decode_response":
             R = bytes.fromhex(case["request"])
-            return judge(ref, M, observe(layer.decode_response, M, R), "decode_response", only=case.get("service"), via=R,
-                         solo=solo_fn(ngnr, "decode_response", M, R))
+            obs = observe(layer.decode_response, M, R, keep=kept)
+            out = judge(ref, M, obs, "decode_response", only=case.get("service"), via=R, solo=solo_fn(ngnr, "decode_response", M, R))
+            if case.get("service") == "-":
+                out += via_check(ref, M, R, obs)
+            if case.get("object"):
+                bad = reencode_diff(ref, kept, case["service"], case["object"], M, R)
+                if bad:
+                    out.append(("C06/own-response/reported-values-do-not-re-encode", bad))
+            return out
     return out
